@@ -302,6 +302,10 @@ func registerSigModel(ex *Explorer) {
 	I["(*github.com/pegnet/pegnetd/fat/fat2.TransactionBatch).UnmarshalJSON"] = func(in *Interp, fn *ssa.Function, a []Value) Value {
 		tc := a[0].(*Cell)
 		data := a[1].(SliceVal)
+		if _, isDoc := data.Ext.(*jsonDoc); isDoc {
+			// a modelled JSON document: the real decoder runs (object-level document model)
+			return in.callFunction(fn, a, nil)
+		}
 		b, ok := data.Ext.(*blob)
 		if !ok || b.kind != "json" || b.val == nil {
 			return in.newError("*fat2.TransactionBatch: invalid character (parse stub: content is not a batch)")
